@@ -113,6 +113,12 @@ fn deviants(rng: &mut Rng) -> Vec<(String, Pkt)> {
         ("Unknown7f".into(), Pkt::Unknown { id: 0x7f, raw: vec![] }),
         ("Unknown5ByteId".into(), Pkt::Unknown { id: -1, raw: vec![] }),
         ("UnknownMaxId".into(), Pkt::Unknown { id: i32::MAX, raw: vec![0] }),
+        // ids whose first group looks like an expected id (0, 1, 3, 4) and that go on: 128, 129, 131, 132
+        ("Unknown80".into(), Pkt::Unknown { id: 128, raw: vec![] }),
+        ("Unknown81".into(), Pkt::Unknown { id: 129, raw: 7u64.to_be_bytes().to_vec() }),
+        ("Unknown83".into(), Pkt::Unknown { id: 131, raw: vec![] }),
+        ("Unknown84".into(), Pkt::Unknown { id: 132, raw: vec![0x0f, b'p', b'a', b's', b's', b'a', b'g', b'e', b':', b's', b'e', b's', b's', b'i', b'o', b'n', 0] }),
+        ("Unknown4000".into(), Pkt::Unknown { id: 0x4000, raw: vec![] }),
         // a frame longer than the (default) maximum of 10 000 bytes: not the expected packet either
         ("OversizedFrame".into(), Pkt::Unknown { id: 0x7e, raw: vec![0xaa; 10_050] }),
     ]
